@@ -292,7 +292,7 @@ func check(c Case) (o h.Outcome) {
 
 // ---------------------------------------------------------------------------------------
 
-var tplPool = []string{"/a", "/a/{x}", "/a/b", "/{x}", "/{x}/b", "/a/{x}/b", "/a/{x}/{y}", "/{x}/{y}", "/b/{y}", "/b"}
+var tplPool = []string{"/a", "/a/{x}", "/a/b", "/{x}", "/{x}/b", "/a/{x}/b", "/a/{x}/{y}", "/{x}/{y}", "/b/{y}", "/b", "/a/b/c", "/a/{x}/c", "/{x}/b/{y}", "/a/b/{y}"}
 var methodSets = [][]string{{"GET"}, {"POST"}, {"GET", "POST"}, {"GET", "PUT", "DELETE"}}
 var servers = []string{"none", "/v1", "/api/{ver}", "http://h.example/base"}
 var values = []string{"1", "abc", "a.b", "x-y_z~", "b", "a"}
@@ -339,6 +339,33 @@ func requestsFor(c Case) []Case {
 				add(m, p, t.Path, host)
 			}
 			// neighbours
+			if vi == 0 {
+				// shadowing: variables take the literal a sibling template has at the same position, so
+				// a matcher that commits to the literal branch has to back out of it
+				tsegs := strings.Split(t.Path, "/")
+				for _, sib := range c.Templates {
+					ssegs := strings.Split(sib.Path, "/")
+					if sib.Path == t.Path || len(ssegs) < 2 {
+						continue
+					}
+					q := make([]string, len(tsegs))
+					changed := false
+					for si, seg := range tsegs {
+						q[si] = seg
+						if reVar.MatchString(seg) {
+							q[si] = "v"
+							if si < len(ssegs) && !reVar.MatchString(ssegs[si]) && ssegs[si] != "" {
+								q[si], changed = ssegs[si], true
+							}
+						}
+					}
+					if changed {
+						for _, m := range []string{"GET", "POST"} {
+							add(m, base+strings.Join(q, "/"), t.Path, host)
+						}
+					}
+				}
+			}
 			add("GET", p+"/", "", host)
 			add("GET", p+"/extra", "", host)
 			add("GET", strings.Replace(p, "/", "//", 1), "", host)
@@ -357,7 +384,7 @@ func requestsFor(c Case) []Case {
 
 func enumerate(shard, nshards int, yield func(Case)) {
 	idx := 0
-	small := []string{"/a", "/a/{x}", "/a/b", "/{x}", "/{x}/b", "/b/{y}"}
+	small := []string{"/a", "/a/{x}", "/a/b", "/{x}", "/{x}/b", "/b/{y}", "/a/b/c", "/a/{x}/b"}
 	for _, router := range []string{"gorillamux", "legacy"} {
 		for _, srv := range servers {
 			// all families of 1..2 templates (3 in the thorough tier) with a fixed method assignment
